@@ -240,7 +240,7 @@ int main(int argc, char **argv) {
 	const bool T = A.thorough();
 	// (pbits, qbits) of the model-compared groups: the extracted model computes in Coq's binary integers
 	std::vector<std::pair<unsigned, unsigned> > sizes = { {16, 8}, {24, 12}, {40, 17}, {64, 32}, {96, 48} };
-	if (T) { sizes.push_back({128, 64}); sizes.push_back({33, 32}); sizes.push_back({160, 80}); }
+	if (T) { sizes.push_back({128, 64}); sizes.push_back({36, 32}); sizes.push_back({160, 80}); }
 	unsigned rounds = T ? 10 : 3;
 	for (unsigned rd = 0; rd < rounds; rd++) {
 		for (size_t si = 0; si < sizes.size(); si++) {
